@@ -24,6 +24,7 @@ open Wire Pen PenShow Gen
     qmknap <values> <weights> <capacities> <profits>
     kmcsat <k> <labels> <clauses>                          clauses: idx:sign+idx:sign+... separated by ','
     qap <distance rows> <flow rows>
+    bpsp <car labels>
     msq <size> <power>                                     constraint expressions shown without self-loop folding
 -/
 
@@ -154,6 +155,13 @@ def answer (line : String) : String :=
       | some q => showGCqm q
       | none => "err"
     | _, _ => "bad-op"
+  | ["bpsp", cars] =>
+    match parseLabels cars with
+    | some cars =>
+      match bpsp cars with
+      | some bag => showBag .spin bag
+      | none => "err"
+    | none => "bad-op"
   | ["msq", n, power] =>
     match n.toNat?, power.toNat? with
     | some n, some power =>
